@@ -14,6 +14,7 @@ import (
 	"github.com/zenon-network/go-zenon/common/types"
 	"github.com/zenon-network/go-zenon/consensus/api"
 	"github.com/zenon-network/go-zenon/vm/embedded"
+	"github.com/zenon-network/go-zenon/vm/embedded/definition"
 	"github.com/zenon-network/go-zenon/vm/vm_context"
 )
 
@@ -26,6 +27,7 @@ type c09Momentum struct {
 	ts        uint64
 	sporks    [3]bool       // accelerator, htlc, bridge&liquidity
 	confirmed store.Account // confirmed state of the account under test (sender-side obligations)
+	pillars   []*definition.PillarInfo
 }
 
 func (m *c09Momentum) ChainIdentifier() uint64 { return 1 }
@@ -53,6 +55,22 @@ func (m *c09Momentum) IsSporkActive(s *types.ImplementedSpork) (bool, error) {
 		return m.sporks[2], nil
 	}
 	return false, nil
+}
+
+// active pillars at the frontier: 0..2 pillars with fixed names and distinct owners (the voting code only counts them
+// and looks them up by name / owner)
+func (m *c09Momentum) GetActivePillars() ([]*definition.PillarInfo, error) {
+	if m.pillars == nil {
+		n := verifNondetLen("active pillars", 0, 2)
+		m.pillars = make([]*definition.PillarInfo, n)
+		for i := range m.pillars {
+			p := &definition.PillarInfo{Name: []string{"p0", "p1"}[i], PillarType: definition.NormalPillarType}
+			p.StakeAddress[0], p.BlockProducingAddress[0], p.RewardWithdrawAddress[0] = types.UserAddrByte, types.UserAddrByte, types.UserAddrByte
+			p.StakeAddress[19], p.BlockProducingAddress[19], p.RewardWithdrawAddress[19] = byte(1+i), byte(11+i), byte(21+i)
+			m.pillars[i] = p
+		}
+	}
+	return m.pillars, nil
 }
 
 // pillar reader (consensus statistics): a model; only the epoch ticker is concrete (24 h epochs from a fixed genesis)
